@@ -221,3 +221,109 @@ def summarize(plan, res):
                        'call_out_values_fired': sum(1 for e in res.events if e.kind == 'R' and e.rest.startswith('COVAL ')),
                        'input_to_values': sum(1 for e in res.events if e.kind == 'R' and e.rest.startswith('GOTVAL ')),
                        'statistics_counter_drift_with_level_heap': 1 if (len(mem) >= ROUNDS and mem[ROUNDS - 4]['heap'] == mem[ROUNDS - 1]['heap'] and any(mem[ROUNDS - 4].get(k) != mem[ROUNDS - 1].get(k) for k in ('arrays', 'arrsz', 'maps', 'nodes'))) else 0}}
+
+
+# ------------------------------------------------------------------ second scenario class: values through the efun surface
+EFUN_BLACKLIST = set('''call_other clone_object new bind destruct call_out input_to get_char move_object add_action command remove_action disable_commands
+enable_commands set_living_name notify_fail restore_object save_object write tell_object shout receive message say tell_room load_object replace_program
+write_file rename write_bytes write_buffer cp link mkdir rm rmdir exec set_heart_beat set_hide set_reset snoop throw printf enable_wizard disable_wizard
+reload_object error flush_messages ed dumpallobj reclaim_objects set_eval_limit reset_eval_cost eval_cost max_eval_cost shutdown store_variable
+remove_interactive debug_message dump_prog moncontrol seteuid export_uid resolve tail remove_call_out find_object this_object evaluate in_edit
+socket_create socket_bind socket_listen socket_accept socket_connect socket_write socket_close socket_release socket_acquire socket_error socket_address dump_socket_status
+set_light set_privs set_author set_debug_level debug_info trace traceprefix dump_file_descriptors malloc_status mud_status memory_summary memory_info rusage cache_stats
+query_load_average function_profile check_memory swap set_malloc_mask query_host_name uptime time ctime localtime random origin call_stack'''.split())
+
+
+def _parse_spec(path='/repo/lib/efuns/func_spec.c'):
+    """efun name -> (min args, max args or None for varargs); side-effect free efuns only"""
+    try: text = open(path).read()
+    except Exception: return {}
+    text = re.sub(r'/\*.*?\*/', '', text, flags=re.S)
+    text = '\n'.join(l for l in text.split('\n') if not l.strip().startswith('#'))
+    out = {}
+    for m in re.finditer(r'([\w \*]+?)\s*\(([^;]*?)\)\s*;', text):
+        head = m.group(1).split()
+        if len(head) < 2: continue
+        names = [h.strip('*') for h in head if re.fullmatch(r'\*?[a-z_][a-z_0-9]*', h)]
+        types = {'int', 'void', 'mixed', 'string', 'object', 'mapping', 'function', 'float', 'buffer', 'unknown'}
+        names = [n for n in names if n not in types]
+        if not names: continue
+        name = names[0]
+        if name in EFUN_BLACKLIST: continue
+        args = [a.strip() for a in m.group(2).split(',')] if m.group(2).strip() else []
+        lo = hi = 0; var = False
+        for a in args:
+            if a == 'void' or a == '': continue
+            if a == '...' or a.endswith('...'): var = True; continue
+            hi += 1
+            if 'void' in a.split('|')[0:1] or re.search(r'\bvoid\b', a) or 'default' in a: continue
+            lo = hi
+        out[name] = (lo, None if var else hi)
+    return out
+
+
+VALUE_EXPRS = ['0', '1', '-1', '7', '2147483647', '(-2147483647 - 1)', '4294967296', '9223372036854775807', '(-9223372036854775807 - 1)',
+               '0.0', '1.5', '-2.5', '1.0e300', '""', '"abc"', '"a b c"', '"%s%d%O"', '"%"', 'repeat_string("xy", 2000)', '"/u/a"', '"0123"', '"ab\\ncd"', '"^(a|b)*$"',
+               '({ })', '({ 1, 2, 3 })', '({ "a", "b" })', '({ ({ 1 }), ([ ]) })', 'allocate(100)', '({ this_object() })', '({ "b", "a", "b", 3, 1.5 })',
+               '([ ])', '([ "a" : 1, "b" : ({ 2 }) ])', '([ 1 : "x", 2 : ([ 3 : 4 ]) ])', '(: $1 :)', '(: fp_target :)', '(: $1 + $2 :)', 'allocate_buffer(8)', 'this_object()', 'new(class CK)']
+
+
+def gen_efuns(rng, tier, i):
+    spec = _parse_spec()
+    names = sorted(spec)
+    nv = 12
+    setup = ['  g%d = %s;' % (k, rng.choice(VALUE_EXPRS)) for k in range(nv)]
+    calls = []
+    picked = []
+    for _ in range(rng.randint(20, 50 if tier == 'quick' else 120)):
+        if not names: break
+        n = rng.choice(names); lo, hi = spec[n]
+        cnt = rng.randint(lo, (hi if hi is not None else lo + 2))
+        args = ', '.join('g%d' % rng.randrange(nv) for _ in range(cnt))
+        calls.append('  catch(r = %s(%s));' % (n, args)); picked.append(n)
+    src = ('inherit "/script";\nmixed ' + ', '.join('g%d' % k for k in range(nv)) + ';\nvoid create() { seteuid(getuid()); }\n'
+           'void setup() {\n' + '\n'.join(setup) + '\n}\n'
+           'void run_efuns() {\n  mixed r;\n' + '\n'.join(calls) + '\n}\n'
+           'void clearg() { ' + ' '.join('g%d = 0;' % k for k in range(nv)) + ' }\n')
+    p = Plan()
+    p.file('mcfg.h', mcfg({}))
+    p.file('c6/e.c', src)
+    p.cfg('Port', '4000:telnet')
+    p.cfg('MaxEvaluationCost', 8000000)
+    p.cfg('MaxArraySize', 20000)
+    p.cfg('MaxInheritDepth', 4)
+    p.opt('fault_exempt_master', 1)
+    p.opt('max_instr', 200000000)
+    p.cycle(connect(0, 0))
+    p.cycle(send(0, 'do name u0;call /c6/e setup\r\n'))
+    p.meta['round_cycles'] = []
+    for r in range(ROUNDS):
+        start = len(p.cycles)
+        p.cycle(send(0, 'do call /c6/e setup\r\n'))
+        p.cycle(send(0, 'do call /c6/e run_efuns\r\n'))
+        p.cycle(send(0, 'do call /c6/e clearg\r\n'))
+        p.idle(1)
+        p.cycle(send(0, 'do memstat %d\r\n' % r))
+        p.meta['round_cycles'].append((start, len(p.cycles)))
+    p.idle(1)
+    p.meta['kinds'] = ['efun'] * 4; p.meta['shared'] = True; p.meta['many'] = False
+    p.meta['efuns'] = picked
+    p.meta['tmpl'] = None
+    return p
+
+
+_gen_values = gen
+
+
+def gen(rng, tier, i):
+    # one scenario in four sends values through the efun surface instead of the scripted plumbing
+    if rng.random() < 0.25: return gen_efuns(rng, tier, i)
+    return _gen_values(rng, tier, i)
+
+
+_shrink_values = shrink_args
+
+
+def shrink_args(plan, fails):
+    if plan.meta.get('tmpl') is None: return plan      # efun scenarios are kept whole (the generated program is the replay)
+    return _shrink_values(plan, fails)
